@@ -189,3 +189,22 @@ Theorem rereferenced_gain_invariant : forall (F : fieldType) m n k (s : 'S_n) (r
   = reref r (A *m invmx H *m S).
 Proof. exact GainAlgebra.gain_redescription_invariant. Qed.
 Print Assumptions rereferenced_gain_invariant.
+
+(* link between A and B: matrices whose entries are functions of the label-free unknowns, enumerated in two orders that
+   differ by a permutation s, are P H P^T, P S, A P^T; hence the gain does not depend on the enumeration *)
+Theorem label_free_matrices_are_conjugate : forall (F : fieldType) (U : Type) (n m k : nat)
+  (Kh : U -> U -> F) (Ks : U -> 'I_k -> F) (Ka : 'I_m -> U -> F) (u : 'I_n -> U) (s : 'S_n),
+  headmx Kh (u \o s) = perm_mx s *m headmx Kh u *m (perm_mx s)^T
+  /\ srcmx Ks (u \o s) = perm_mx s *m srcmx Ks u
+  /\ sensmx Ka (u \o s) = sensmx Ka u *m (perm_mx s)^T.
+Proof.
+  intros F U n m k Kh Ks Ka u s. split; [apply headmx_relabel|split; [apply srcmx_relabel|apply sensmx_relabel]].
+Qed.
+Print Assumptions label_free_matrices_are_conjugate.
+
+Theorem gain_enumeration_free : forall (F : fieldType) (U : Type) (n m k : nat)
+  (Kh : U -> U -> F) (Ks : U -> 'I_k -> F) (Ka : 'I_m -> U -> F) (u : 'I_n -> U) (s : 'S_n),
+  headmx Kh u \in unitmx ->
+  sensmx Ka (u \o s) *m invmx (headmx Kh (u \o s)) *m srcmx Ks (u \o s) = sensmx Ka u *m invmx (headmx Kh u) *m srcmx Ks u.
+Proof. exact GainAlgebra.gain_enumeration_free. Qed.
+Print Assumptions gain_enumeration_free.
